@@ -128,6 +128,16 @@ CLAIMS["C41"] = dict(
     note="RecordBatch is modelled by the run of abstract input rows it holds; the inner stream is an always-ready iterator (no Pending interleavings).",
 )
 
+CLAIMS["C26"] = dict(
+    engine="kani-transplant",
+    technique="bounded symbolic execution of the integer codec leaf kernels (byte-aligned packing; FastLanes bit-packing kernels, see C28) with Kani+CBMC",
+    text=("Decides losslessness for the integer leaf codecs that are pure bit/byte arithmetic: BytepackedIntegerEncoder/ByteUnpacker round-trip for every "
+          "max_value and values (every byte width and width boundary) and the FastLanes bit-packing kernels used by the bit-packing encodings (all 1024 lanes "
+          "symbolic, per (type,width) pair; shared with C28). RLE, byte-stream-split, dictionary, FSST, packed-struct, general (LZ4/ZSTD) compression and the "
+          "mini-block chunking limits sit on LanceBuffer/Arrow/bytemuck/C libraries and are NOT claimed."),
+    note="Claim restricted to the named kernels.",
+)
+
 _IO = "truth lives in async object-store/tokio orchestration (crash points, interleavings, listings); Kani/CBMC has no model of tokio or object_store and no pure kernel implies the statement"
 NOT_APPLICABLE.update({
     "C01": "commit atomicity over crash points: " + _IO,
@@ -156,5 +166,5 @@ NOT_APPLICABLE.update({
     "C42": "relocatability is a statement about every path written by every writer being relative; decided by I/O",
 })
 _PLANNED = "planned in DESIGN.md §5 but its check is not built yet, so it is not claimed"
-for _p in ["C09", "C17", "C19", "C26", "C27", "C29", "C32", "C36", "C43"]:
+for _p in ["C09", "C17", "C19", "C27", "C29", "C32", "C36", "C43"]:
     NOT_APPLICABLE.setdefault(_p, _PLANNED)
